@@ -18,7 +18,7 @@ LEVEL = "exploration"
 RULE = (
     "Hypothesis draws data-set specs: d in 1..8, n in 4d..2000, law in {gaussian, multivariate-t nu in {1,2,3,5,10,30}, exponential, "
     "5% contamination x50, uniform} through a random linear map of condition <=100, then per-coordinate scalings 10^U(-6,6), translations "
-    "up to 100 sd and a coordinate permutation. recovery: n=20000 multivariate-t samples, d in 1..3, nu in {2,3,5,10}. fallback: weighted "
+    "up to 100 sd (and far ones: 1e4..1e7 sd), a coordinate permutation, and C / Fortran / transposed-view memory layouts. recovery: n=20000 multivariate-t samples, d in 1..3, nu in {2,3,5,10}. fallback: weighted "
     "pools with 1..3 labels and the fit's nu replaced by nan/+inf/-inf. Non-trivial = heavy-tailed or contaminated law, or scaling spread >= 1e6."
 )
 ASSUMPTIONS = [
@@ -59,7 +59,7 @@ def data_spec(draw):
             "law": draw(st.sampled_from(["gaussian", "t1", "t2", "t3", "t5", "t10", "t30", "exponential", "contaminated", "uniform"])),
             "cond": draw(st.floats(1.0, 100.0)), "seed": draw(st.integers(0, 2**31 - 1)),
             "logscale": [draw(st.one_of(st.floats(-6.0, 6.0), st.just(0.0))) for _ in range(d)],
-            "shift_sd": [draw(st.one_of(st.floats(-100.0, 100.0), st.just(0.0))) for _ in range(d)],
+            "shift_sd": [draw(st.one_of(st.floats(-100.0, 100.0), st.just(0.0), st.sampled_from([1e4, -1e5, 1e6, -1e7]))) for _ in range(d)],
             "perm_seed": draw(st.integers(0, 10**6))}
 
 
@@ -111,7 +111,9 @@ def exec_fit(case):
     t = np.array([float(v) for v in case["shift_sd"]]) * sd1 * D
     perm = np.random.default_rng(case["perm_seed"]).permutation(d)
     y = (x * D + t)[:, perm]
-    mu2, S2, nu2 = lib_call(fit_mvstud, y.copy(), what="fit_mvstud(Dx+t)")
+    ylay = ["F", "T", "C"][case["seed"] % 3]  # the transformed copy arrives in another memory layout than the original
+    ya = np.asfortranarray(y.copy()) if ylay == "F" else (np.ascontiguousarray(y.T.copy()).T if ylay == "T" else y.copy())
+    mu2, S2, nu2 = lib_call(fit_mvstud, ya, what="fit_mvstud(Dx+t)")
     sd2 = check_fit(y, mu2, S2, nu2, "fit_mvstud(Dx+t)")
     mu_e = (np.asarray(mu1) * D + t)[perm]
     S_e = (np.asarray(S1) * np.outer(D, D))[np.ix_(perm, perm)]
